@@ -494,15 +494,27 @@ def r9(fx):
                 bad.append((x, got, want))
         yield ob(f'normalize_mask micro={micro}', not bad and f(None, micro) is None, fn, got=bad[:3], want=[])
     # encode normalises the mask against the class of the version actually used
+    from . import p04
     enc = fx.fn('encoder', 'encode')
-    a = single([s for s in enc.body if isinstance(s, ast.Assign) and 'normalize_mask' in ast.unparse(s.value)], 'normalize_mask in encode')
-    b = pat.need(a.value, 'normalize_mask(mask, H_m)', 'normalize_mask call')
-    im = [s for s in enc.body if isinstance(s, ast.Assign) and ast.unparse(s.targets[0]) == 'is_micro']
-    im = [s for s in enc.body if isinstance(s, ast.Assign) and isinstance(b['m'], ast.Name) and ast.unparse(s.targets[0]) == b['m'].id]
-    okm = isinstance(b['m'], ast.Name) and len(im) == 1 and nf.same(im[0].value, 'version < 1') \
-        and enc.body.index(im[0]) < enc.body.index(a) and \
-        all(enc.body.index(s) < enc.body.index(im[0]) for s in enc.body if isinstance(s, (ast.Assign, ast.If)) and any(
-            isinstance(t, ast.Name) and t.id == 'version' and isinstance(t.ctx, ast.Store) for t in ast.walk(s)))
-    yield ob('encode: mask range is chosen by the final version (is_micro = version < 1 after the version is fixed)', okm, a,
-             got=f'{ast.unparse(a)}; ' + '; '.join(ast.unparse(s) for s in im), want='is_micro = version < 1; mask = normalize_mask(mask, is_micro)')
+    mvv = micro_versions(fx)
+    it2 = Interp()
+    bad = []
+    for req, guessed, final in ((None, -2, -2), (None, 5, 5), ('M3', -3, -1), (10, 2, 10), ('m4', 0, 0), (1, 1, 1)):
+        genv, rec = p04._encode_stub_env(fx, it2, mvv[guessed] if guessed < 1 else guessed)
+        real = genv['normalize_mask']
+        seen = []
+
+        def nm(mask, is_micro, real=real, seen=seen):
+            seen.append((mask, bool(is_micro)))
+            return real(mask, is_micro)
+        genv['normalize_mask'] = nm
+        try:
+            FuncVal(enc, genv, it2)('<content>', None, req, None, '3', None, False, None, True)
+            got = (list(seen), rec.get('_encode', {}).get('mask'))
+        except PyRaise as e:
+            got = f'raises {e.name}'
+        if got != ([('3', final < 1)], 3):
+            bad.append((req, guessed, got))
+    yield ob('encode: the mask range is chosen by the final version (Micro iff the version used is a Micro version); the normalised mask reaches _encode', not bad, enc,
+             got=bad[:2] or 'as required', want='normalize_mask(mask, <final version is Micro>) -> _encode(mask=...)')
     yield from wrappers.forwarding(fx, {'mask'})
